@@ -717,6 +717,35 @@ def extract_guards(src: Path) -> str:
                        "   -- send_task: `try: while not self.closed: … finally: for b in self.stream_buffers.values(): await b.close()`")
     except Exception as e:
         fail("h2SendTaskReleasesSenders", str(e))
+    # C15 (F113): what becomes of a connection handler that is cancelled while a transport write is held up by a peer that does
+    # not read.  asyncio: TCPServer.run ends in `finally: await self._close()`, and `_close` awaits `writer.wait_closed()`
+    # (which waits for the transport to flush) unless the transport is aborted first; trio: `protocol_send` runs
+    # `stream.send_all` inside a shielded cancel scope, which the nursery's deadline cannot interrupt.
+    try:
+        at = parse(src / "asyncio/tcp_server.py")
+        run_fn, close_fn = find_def(at, "TCPServer", "run"), find_def(at, "TCPServer", "_close")
+        if run_fn is None or close_fn is None:
+            fail("asyncioCloseWaitsForFlush", "asyncio TCPServer.run / _close not found")
+        else:
+            waits = any(isinstance(n, ast.Await) and ast.unparse(n.value).endswith("wait_closed()") for n in ast.walk(close_fn))
+            aborts = any(isinstance(n, ast.Call) and ast.unparse(n.func).endswith(".abort") for fn_ in (run_fn, close_fn) for n in ast.walk(fn_))
+            out.append(f"def asyncioCloseWaitsForFlush : Bool := {'true' if waits and not aborts else 'false'}"
+                       "   -- `_close` awaits writer.wait_closed() and neither it nor `run` aborts the transport")
+        tt = parse(src / "trio/tcp_server.py")
+        ps = find_def(tt, "TCPServer", "protocol_send")
+        if ps is None:
+            fail("trioSendShielded", "trio TCPServer.protocol_send not found")
+        else:
+            shielded = False
+            for w in ast.walk(ps):
+                if isinstance(w, ast.With) and any("CancelScope" in ast.unparse(i.context_expr) for i in w.items):
+                    txt = ast.unparse(w)
+                    if "send_all" in txt and ("shield = True" in txt or "shield=True" in txt):
+                        shielded = True
+            out.append(f"def trioSendShielded : Bool := {'true' if shielded else 'false'}"
+                       "   -- protocol_send: `stream.send_all` runs inside a shielded CancelScope")
+    except Exception as e:
+        fail("blockedWriteFlags", str(e))
     # C06: `self.request_complete` belongs to the request in progress - reset when a new h11.Request arrives (before its stream
     # exists), set at its EndOfMessage, assigned nowhere else; and HTTPStream.app_send hands the validated headers of
     # http.response.start to the protocol as they are (h11 decides about keep-alive from the application's `connection: close`).
